@@ -46,6 +46,38 @@ KNOWN_SIGS = ("silent-close-unknown-serializer", "silent-close-validator-connclo
 COMMTO = 0.5            # COMMTIMEOUT of the timeout / poolfull environments
 ABORT_RECV_TIMEOUT = 0.4
 DAEMON_OBJ = "Pyro.Daemon"
+POOL_IDS = ["a", "b", "w", "v"]          # ids the application registers / unregisters during a case
+OBJNUM = {DAEMON_OBJ: 0, "t": 1, "a": 2, "b": 3, "w": 4, "v": 5}
+
+
+def objnum(o):
+    """the model's number of an object id (None: not usable as an id at all)"""
+    try:
+        hash(o)
+    except Exception:
+        return None
+    if isinstance(o, str) and o in OBJNUM:
+        return OBJNUM[o]
+    return 1000 + zlib.crc32(repr(o).encode()) % 100000
+
+
+def is_app(item):
+    return isinstance(item, dict) and "app" in item
+
+
+def registry_timeline(case):
+    """the application's own view: the set of registered ids before each position of case["order"] (and after the last)"""
+    reg = {DAEMON_OBJ} | set(case.get("reg0", [OBJ]))
+    out = []
+    for it in case["order"]:
+        out.append(set(reg))
+        if is_app(it):
+            if it["app"] == "register":
+                reg.add(it["id"])
+            elif it["id"] != DAEMON_OBJ:
+                reg.discard(it["id"])
+    out.append(set(reg))
+    return out
 ENV_ORDER = ["plain", "timeout", "poolfull", "abort"]
 PARK = threading.Event()
 
@@ -208,7 +240,9 @@ class Env:
                 self.saved_hook = threading.excepthook
                 threading.excepthook = lambda args: None
             srv = rd.Server(sty, pool_size=8, pool_min=1, **kw).start()
-        srv.register(Target(), OBJ)
+        base = Target()
+        srv.register(base, OBJ)
+        srv.c08_target, srv.c08_objs = Target, {OBJ: base}       # for the application-side register / unregister events
         if envname == "poolfull":
             PARK.clear()
             del EXEC_LOG[:]
@@ -338,12 +372,13 @@ def build_message(spec):
 
 def classify(spec, registered, vbspec, exc_table):
     """classification of a message spec = the model's input.  Uses the tree's serializers to learn what the
-    payload decodes to, mirroring the accesses the daemon makes (data["handshake"], data["object"], 4-tuple unpack)."""
+    payload decodes to, mirroring the accesses the daemon makes (data["handshake"], data["object"], 4-tuple unpack).
+    `registered`: the ids the APPLICATION has registered at this moment (only used to say what get_metadata(id) does)."""
     from Pyro5 import errors, protocol
     sers = known_serializers()
     known = spec["ser"] in sers
     wf = "WfOk" if spec["wf"] == "ok" else ("WfBadHeader" if spec["wf"].startswith("hdr:") else "WfBadBody")
-    hs, call = "HsUndecodable", "CpFail DfKeep"
+    hs, call, hs_obj = "HsUndecodable", "CpFail DfKeep", None
     if known and wf == "WfOk":
         ser = sers[spec["ser"]]
         body = payload_bytes(spec, ser)
@@ -363,10 +398,9 @@ def classify(spec, registered, vbspec, exc_table):
                 except Exception:
                     hs = "HsNoObjectKey"
                 else:
-                    try:
-                        hs = "HsFull ObjKnown" if registered.get(o) is not None else "HsFull ObjUnknown"
-                    except Exception:
-                        hs = "HsFull ObjBad"
+                    n = objnum(o)
+                    hs = "HsFull ObjBad" if n is None else "HsFull (ObjId %s)" % cN(n)
+                    hs_obj = o if n is not None else None
         # as a call
         try:
             objid, method, vargs, kwargs = ser.loadsCall(body)
@@ -378,13 +412,10 @@ def classify(spec, registered, vbspec, exc_table):
             else:
                 call = "CpFail DfKeep"
         else:
-            try:
-                obj_known = registered.get(objid) is not None
-            except Exception:
-                obj_known = False
+            n = objnum(objid)
             meth, tok, target = "MUnknown", 0, "TUser"
             try:
-                if objid == OBJ and method in ("ok", "boom") and len(vargs) == 1 and not kwargs \
+                if isinstance(objid, str) and (objid == OBJ or objid in POOL_IDS) and method in ("ok", "boom") and len(vargs) == 1 and not kwargs \
                         and isinstance(vargs[0], int) and not isinstance(vargs[0], bool) and vargs[0] >= 0:
                     meth = "MReturns" if method == "ok" else "MRaises"
                     tok = vargs[0]
@@ -395,7 +426,7 @@ def classify(spec, registered, vbspec, exc_table):
                         meth = "MReturns"
                     elif method == "get_metadata" and len(vargs) == 1:
                         try:
-                            meth = "MReturns" if registered.get(vargs[0]) is not None else "MRaises"
+                            meth = "MReturns" if vargs[0] in registered else "MRaises"
                         except Exception:
                             meth = "MRaises"
                     elif method == "get_next_stream_item" and len(vargs) == 1:
@@ -408,7 +439,7 @@ def classify(spec, registered, vbspec, exc_table):
                             meth = "MRaises"
             except Exception:
                 pass
-            call = "CpCall %s %s %s %s" % (cbool(obj_known), target, meth, cN(tok))
+            call = "CpCall %s %s %s %s" % ("None" if n is None else "(Some %s)" % cN(n), target, meth, cN(tok))
     # validator behaviour of this connection
     if vbspec["kind"] == "raise":
         val = "VRaise %s" % cbool(issubclass(exc_table[vbspec["cls"]], errors.ConnectionClosedError))
@@ -423,7 +454,7 @@ def classify(spec, registered, vbspec, exc_table):
                 okser = False
         val = "VAccept %s" % cbool(okser)
     return {"type": spec["type"], "wf": wf, "ser": spec["ser"], "ser_known": known, "seq": spec["seq"],
-            "oneway": bool(spec["flags"] & protocol.FLAGS_ONEWAY), "hs": hs, "call": call, "val": val}
+            "oneway": bool(spec["flags"] & protocol.FLAGS_ONEWAY), "hs": hs, "hs_obj": hs_obj, "call": call, "val": val}
 
 
 def c_msg(cl):
@@ -444,17 +475,27 @@ def c_reply(r):
         cN(r["type"]), cbool(r["exc"]), cN(r["seq"]), cN(r["ser"]), rs)
 
 
+def c_app(it):
+    n = cN(OBJNUM[it["id"]])
+    return {"register": "Register", "unreg_id": "UnregisterById", "unreg_obj": "UnregisterByObject", "gc": "GcWeak"}[it["app"]] + " " + n
+
+
 def c_case(case, obs, cls):
-    segs = []
-    for i, (c, si) in enumerate(case["order"]):
+    items = []
+    for i, it in enumerate(case["order"]):
+        if is_app(it):
+            items.append("IApp (%s)" % c_app(it))
+            continue
+        c, si = it
         o = obs["segs"][i]
         msgs = clist([c_msg(m) for m in cls[i]])
-        segs.append("{| s_conn := %s; s_denied := %s; s_ins := %s; s_replies := %s; s_execs := %s; s_end := %s |}" % (
+        items.append("ISeg {| s_conn := %s; s_denied := %s; s_ins := %s; s_replies := %s; s_execs := %s; s_end := %s |}" % (
             cnat(c), cbool(case_env(case) == "poolfull"), msgs, clist([c_reply(r) for r in o["replies"]]),
             clist(["(%s, %s, %s)" % (cnat(e[0]), cbool(e[3]), cN(e[1])) for e in o["execs"]]),
             {"open": "EndOpen", "closed": "EndClosed", "silent": "EndSilent"}[o["end"]]))
-    return "{| k_sty := %s; k_q1 := %s; k_q2 := %s; k_q3 := %s; k_segs := %s |}" % (
-        "Thread" if case["sty"] == "thread" else "Multiplex", cbool(obs["q1"]), cbool(obs["q2"]), cbool(obs["q3"]), clist(segs))
+    return "{| k_sty := %s; k_q1 := %s; k_q2 := %s; k_q3 := %s; k_reg0 := %s; k_items := %s |}" % (
+        "Thread" if case["sty"] == "thread" else "Multiplex", cbool(obs["q1"]), cbool(obs["q2"]), cbool(obs["q3"]),
+        clist([cN(OBJNUM[x]) for x in case.get("reg0", [OBJ])]), clist(items))
 
 
 def case_env(case):
@@ -546,6 +587,49 @@ def read_until(cl, env, conn, seg, stop_seq, timeout):
         seg["replies"].append(canon_reply(env, m, conn["vb"]))
 
 
+def apply_app(srv, it):
+    """the application's side of the case: register / unregister on the real daemon, from outside the request loop"""
+    import gc
+    d, oid = srv.daemon, it["id"]
+    try:
+        if it["app"] == "register":
+            if oid not in d.objectsById:            # registering a taken id raises and changes nothing
+                obj = srv.c08_target()
+                d.register(obj, oid, weak=bool(it.get("weak")))
+                srv.c08_objs[oid] = obj
+        elif it["app"] == "unreg_id":
+            d.unregister(oid)
+            srv.c08_objs.pop(oid, None)
+        elif it["app"] == "unreg_obj":
+            obj = srv.c08_objs.pop(oid, None)
+            if obj is not None:
+                d.unregister(obj)
+        elif it["app"] == "gc":                     # only generated for ids that were registered weak=True
+            srv.c08_objs.pop(oid, None)
+            gc.collect()
+    except Exception as x:
+        return "%s: %r" % (it, x)
+    return None
+
+
+def restore_registry(srv, collect):
+    import gc
+    d = srv.daemon
+    for oid in list(d.objectsById):
+        if oid not in (DAEMON_OBJ, OBJ):
+            d.unregister(oid)
+    keep = srv.c08_objs.get(OBJ) if OBJ in d.objectsById else None
+    srv.c08_objs.clear()
+    if collect:
+        gc.collect()
+    if keep is None:
+        if OBJ in d.objectsById:
+            d.unregister(OBJ)
+        keep = srv.c08_target()
+        d.register(keep, OBJ)
+    srv.c08_objs[OBJ] = keep
+
+
 def run_impl(env, case, probe=False):
     from Pyro5 import protocol
     envname = case_env(case)
@@ -566,7 +650,14 @@ def run_impl(env, case, probe=False):
     del EXEC_LOG[:]
     ended = {}          # connection -> "closed" | "silent" once seen
     try:
-        for (c, si) in case["order"]:
+        for it in case["order"]:
+            if is_app(it):
+                err = apply_app(srv, it)
+                if err:
+                    obs["anomalies"].append({"seg": len(obs["segs"]), "what": "application call failed: " + err})
+                obs["segs"].append({"app": it["app"], "replies": [], "execs": [], "end": "open"})
+                continue
+            c, si = it
             conn = case["conns"][c]
             items = conn["segs"][si]
             special = items[-1] if items and is_special(items[-1]) else None
@@ -626,6 +717,8 @@ def run_impl(env, case, probe=False):
         if envname == "abort":
             env.stop()          # the server of such a case is not used again (leaked worker / ended loop)
         else:
+            if any(is_app(it) for it in case["order"]):
+                restore_registry(srv, any(is_app(it) and (it.get("weak") or it["app"] == "gc") for it in case["order"]))
             if not quiesce(srv, env.base_busy()):
                 obs["anomalies"].append({"seg": -1, "what": "server did not release the connections of this case"})
             if not srv.loop_alive():
@@ -634,16 +727,28 @@ def run_impl(env, case, probe=False):
 
 
 # ---------------------------------------------------------------- the oracle: the property over the observations
-def first_must_fail(case, c, cls_first):
+def names_registered(m, reg_now):
+    """does this (classified) first message name an object id that the application has registered right now"""
+    if not m["hs"].startswith("HsFull (ObjId"):
+        return False
+    try:
+        return m["hs_obj"] in reg_now
+    except Exception:
+        return False
+
+
+def first_must_fail(case, c, cls_first, reg_now):
     """the property's notion, from the input alone: is the first event of connection c anything else than a
-    well-formed CONNECT (known serializer) for a registered object that the validator accepts, on a connection
-    the transport server did not refuse"""
+    well-formed CONNECT (known serializer) for an object that is registered at this moment (according to the
+    application's own register / unregister calls) which the validator accepts, on a connection the transport
+    server did not refuse"""
     from Pyro5 import protocol
     vb = case["conns"][c]["vb"]
     m = cls_first
     if m.get("special") or case_env(case) == "poolfull":
         return True
-    ok = (m["type"] == protocol.MSG_CONNECT and m["wf"] == "WfOk" and m["ser_known"] and m["hs"] == "HsFull ObjKnown" and vb["kind"] == "accept")
+    ok = (m["type"] == protocol.MSG_CONNECT and m["wf"] == "WfOk" and m["ser_known"] and names_registered(m, reg_now)
+          and vb["kind"] == "accept")
     return not ok
 
 
@@ -661,17 +766,22 @@ def oracle(env, case, obs, cls):
     bad = []
     nconn = len(case["conns"])
     denied = case_env(case) == "poolfull"
-    firsts, per_conn = {}, {c: [] for c in range(nconn)}
-    for i, (c, si) in enumerate(case["order"]):
+    firsts, per_conn, reg_first = {}, {c: [] for c in range(nconn)}, {}
+    timeline = registry_timeline(case)
+    for i, it in enumerate(case["order"]):
+        if is_app(it):
+            continue
+        c, si = it
         per_conn[c].append((i, si))
         if si == 0:
             firsts[c] = cls[i][0]
+            reg_first[c] = timeline[i]
     CONNECT = protocol.MSG_CONNECT
 
     def reached(c):
         m0, vb = firsts[c], case["conns"][c]["vb"]
         return (not denied and not m0.get("special") and m0["type"] == CONNECT and m0["wf"] == "WfOk" and m0["ser_known"]
-                and m0["hs"] in ("HsNoObjectKey", "HsFull ObjKnown", "HsFull ObjUnknown", "HsFull ObjBad"))
+                and (m0["hs"] == "HsNoObjectKey" or m0["hs"].startswith("HsFull")))
     aborting = [c for c in range(nconn) if per_conn[c] and case["conns"][c]["vb"]["kind"] == "abort" and reached(c)]
     if not obs.get("loop_alive", True):
         if aborting:
@@ -684,7 +794,7 @@ def oracle(env, case, obs, cls):
             continue
         vb = case["conns"][c]["vb"]
         m0 = firsts[c]
-        must_fail = first_must_fail(case, c, m0)
+        must_fail = first_must_fail(case, c, m0, reg_first[c])
         i0 = per_conn[c][0][0]
         for (i, si) in per_conn[c]:
             for r in obs["segs"][i]["replies"]:
@@ -709,8 +819,8 @@ def oracle(env, case, obs, cls):
             cause = "unknown serializer id %d" % m0["ser"]
         elif validator_reached and vb["kind"] in ("raise", "abort"):
             cause = "validator raises %s" % vb["cls"]
-        elif m0["hs"] == "HsFull ObjUnknown":
-            cause = "unknown object"
+        elif m0["hs"].startswith("HsFull (ObjId") and not names_registered(m0, reg_first[c]):
+            cause = "object %r is not registered at this moment" % (m0["hs_obj"],)
         else:
             cause = "handshake payload %s" % m0["hs"]
         if c in connok_at:
@@ -722,12 +832,12 @@ def oracle(env, case, obs, cls):
             bad.append(("validator-baseexception-unanswered", "validator raised %s: CONNECTFAIL sent: %s, connection %s" % (
                 vb["cls"], bool(fails), {"closed": "closed", "silent": "left open and unserved", "open": "still served"}[o0["end"]])))
         elif not fails and c not in connok_at and not gone:      # a peer that is gone cannot be answered
-            if m0["type"] == CONNECT and m0["wf"] == "WfOk" and not m0["ser_known"] and not denied:
+            if not m0.get("special") and m0["type"] == CONNECT and m0["wf"] == "WfOk" and not m0["ser_known"] and not denied:
                 bad.append(("silent-close-unknown-serializer", "CONNECT with unknown serializer id %d: no CONNECTFAIL was sent (%s)" % (m0["ser"], o0["end"])))
             elif validator_reached and vb["kind"] == "raise" and m0["val"] == "VRaise true":
                 bad.append(("silent-close-validator-connclosed", "validator raised %s: no CONNECTFAIL was sent (%s)" % (vb["cls"], o0["end"])))
             else:
-                bad.append(("missing-connectfail", "failing first event (%s): no CONNECTFAIL was sent" % cause))
+                bad.append(("failed-handshake-not-answered", "failing first event (%s): no CONNECTFAIL was sent (connection %s)" % (cause, o0["end"])))
         if len(fails) > 1:
             bad.append(("reply-after-failed-handshake", "more than one CONNECTFAIL"))
         if others:
@@ -737,7 +847,8 @@ def oracle(env, case, obs, cls):
                 if r["rsn"] != "validator":
                     bad.append(("wrong-reason", "validator raised %s(%r) but CONNECTFAIL carries %r" % (vb["cls"], vb["msg"], r["text"])))
             elif m0.get("special") or (denied and m0["wf"] == "WfOk") or m0["type"] != CONNECT or \
-                    (m0["hs"] == "HsFull ObjUnknown" and vb["kind"] == "accept" and m0["wf"] == "WfOk" and m0["ser_known"]):
+                    (m0["hs"].startswith("HsFull (ObjId") and not names_registered(m0, reg_first[c]) and vb["kind"] == "accept"
+                     and m0["wf"] == "WfOk" and m0["ser_known"]):
                 if not (isinstance(r["text"], str) and r["text"].strip() and r["text"] != "None"):
                     bad.append(("empty-reason", "CONNECTFAIL for (%s) carries no reason text" % cause))
         if o0["end"] != "closed" and not is_abort:
@@ -748,9 +859,16 @@ def oracle(env, case, obs, cls):
                 bad.append(("reply-after-failed-handshake", "messages sent after the failed handshake (%s) were answered / connection open" % cause))
     # executions: only for a connection that was answered CONNECTOK before, whose first event may be accepted
     for i, seg in enumerate(obs["segs"]):
+        if is_app(case["order"][i]):
+            if seg["execs"]:
+                bad.append(("exec-not-on-behalf", "methods ran while only the application touched the registry: %s" % (seg["execs"],)))
+            continue
         c_seg = case["order"][i][0]
         sent = set()
-        for (c, si) in case["order"][:i + 1]:
+        for it in case["order"][:i + 1]:
+            if is_app(it):
+                continue
+            c, si = it
             if c == c_seg:
                 for m in case["conns"][c]["segs"][si]:
                     sent.update(tokens_of(m))
@@ -761,7 +879,7 @@ def oracle(env, case, obs, cls):
             if ec == 999:
                 bad.append(("exec-without-handshake", "method %s(%s) ran on behalf of a connection the case does not know" % (name, tok)))
                 continue
-            if ec not in connok_at or connok_at[ec] > i or first_must_fail(case, ec, firsts[ec]):
+            if ec not in connok_at or connok_at[ec] > i or first_must_fail(case, ec, firsts[ec], reg_first[ec]):
                 bad.append(("exec-without-handshake", "method %s(%s) ran for connection %d which never completed an accepted handshake" % (name, tok, ec)))
             elif ec != c_seg or tok not in sent:
                 bad.append(("exec-not-on-behalf", "method %s(%s) ran for connection %d while connection %d was sending" % (name, tok, ec, c_seg)))
@@ -973,6 +1091,64 @@ class Gen:
         conns = [self.connection() for _ in range(rng.choice([1, 1, 2, 2, 3]))]
         return self.interleave(conns, sty or rng.choice(["thread", "multiplex"]))
 
+    def registry_case(self, sty=None):
+        """the application registers and unregisters objects (by id, by object, weak + collected) between and during
+        connections: connect before the registration, after it (filling whatever the daemon remembers about the id), after
+        the removal, after a re-registration; older connections keep calling the removed object"""
+        rng = self.rng
+        self.tok = 0
+        conns, order = [], []
+        good_ser = lambda: rng.choice(self.known)
+
+        def connect(oid, vb=None):
+            m = self.base(1, {"k": "hs", "shape": rng.choice(["full", "full", "extra"]), "obj": oid}, ser=good_ser())
+            seg0 = [m]
+            for _ in range(rng.choice([0, 1, 1, 2])):
+                seg0.append(rng.choice([self.call(oneway=False, method="ok", obj=oid), self.call(method=rng.choice(["ok", "boom"]), obj=OBJ),
+                                        self.dmeta(oid), self.call(method="ok", obj=rng.choice(POOL_IDS))]))
+            conns.append({"vb": vb or ({"kind": "accept", "value": "hello"} if rng.random() < 0.85 else gen_vb(rng)), "segs": [seg0]})
+            order.append([len(conns) - 1, 0])
+            return len(conns) - 1
+
+        def more(c, oid):
+            seg = [rng.choice([self.call(oneway=False, method="ok", obj=oid), self.call(method="ok", obj=OBJ), self.dmeta(oid),
+                               self.ping(), self.call(method="boom", obj=oid)]) for _ in range(rng.choice([1, 2, 3]))]
+            conns[c]["segs"].append(seg)
+            order.append([c, len(conns[c]["segs"]) - 1])
+        live = {}        # id -> weak?
+        old = []         # (connection, id) still open
+        for _ in range(rng.choice([2, 3, 3, 4, 5])):
+            oid = rng.choice(POOL_IDS[:3] if rng.random() < 0.85 else [OBJ])
+            r = rng.random()
+            if oid not in live and oid != OBJ:
+                if r < 0.25:
+                    connect(oid)                                     # not registered (yet / any more): must be refused
+                weak = oid == "w" or rng.random() < 0.2
+                order.append({"app": "register", "id": oid, "weak": weak})
+                live[oid] = weak
+                if rng.random() < 0.8:
+                    old.append((connect(oid), oid))                   # an accepted peer (its handshake fetched the metadata)
+            else:
+                if rng.random() < 0.3:
+                    old.append((connect(oid), oid))
+                weak = live.get(oid, False)
+                how = rng.choice(["unreg_id", "unreg_id", "unreg_obj"] + (["gc", "gc"] if weak else []))
+                order.append({"app": how, "id": oid})
+                live.pop(oid, None)
+                connect(oid)                                          # a NEW peer naming the removed id
+                if oid == OBJ:
+                    order.append({"app": "register", "id": OBJ, "weak": False})
+                    live.pop(OBJ, None)
+            if old and rng.random() < 0.7:
+                c, o = rng.choice(old)
+                more(c, o)
+        return {"sty": sty or rng.choice(["thread", "multiplex"]), "conns": conns, "order": order}
+
+    def dmeta(self, oid):
+        m = self.base(4, {"k": "dcall", "method": "get_metadata", "args": [oid]})
+        m["seq"] = 30000 + self.token()
+        return m
+
     def interleave(self, conns, sty):
         rng = self.rng
         order = []
@@ -1054,6 +1230,38 @@ def targeted(info, thorough=False):
         one(dict(sil), acc, sty, env="timeout")
         one(connect(), acc, sty, env="timeout", tail=[[inv(), dict(sil)], [inv()]])
         one(connect(), {"kind": "raise", "cls": "KeyError", "msg": "denied:s"}, sty, env="timeout", tail=[[dict(sil)], [inv()]])
+    # the registry changes under the connections: every way of removing an id x with/without an earlier peer that made
+    # the daemon look the id up x handshake / get_metadata as the earlier access
+    def reg_case(sty, how, earlier, ser=1):
+        tok[0] += 10
+        weak = how == "gc"
+        conns, order = [], [{"app": "register", "id": "a", "weak": weak}]
+        ca = {"k": "hs", "shape": "full", "obj": "a"}
+
+        def inv_on(oid, method="ok"):
+            tok[0] += 1
+            return {"type": 4, "wf": "ok", "ser": ser, "seq": 11, "flags": 0, "ann": False,
+                    "payload": {"k": "call", "obj": oid, "method": method, "tok": tok[0]}}
+        if earlier == "handshake":
+            conns.append({"vb": acc, "segs": [[connect(ser, ca), inv_on("a")], [inv_on("a"), inv_on(OBJ), dinv("get_metadata", ("a",))]]})
+            order.append([0, 0])
+        elif earlier == "get_metadata":
+            conns.append({"vb": acc, "segs": [[connect(ser), dinv("get_metadata", ("a",)), inv_on("a")], [inv_on("a"), inv_on(OBJ), dinv("get_metadata", ("a",))]]})
+            order.append([0, 0])
+        order.append({"app": how, "id": "a"})
+        k = len(conns)
+        conns.append({"vb": acc, "segs": [[connect(ser, ca, seq=21), inv_on(OBJ), inv_on("a")], [inv_on(OBJ)]]})   # the NEW peer
+        order += [[k, 0], [k, 1]]
+        if earlier != "none":
+            order.append([0, 1])
+        order.append({"app": "register", "id": "a", "weak": False})
+        conns.append({"vb": acc, "segs": [[connect(ser, ca, seq=22), inv_on("a")]]})                                # registered again: accepted
+        order.append([k + 1, 0])
+        out.append({"sty": sty, "env": "plain", "conns": conns, "order": order})
+    for sty in ("thread", "multiplex"):
+        for how in ("unreg_id", "unreg_obj", "gc"):
+            for earlier in ("handshake", "get_metadata", "none"):
+                reg_case(sty, how, earlier, ser=1 if how != "unreg_obj" else 3)
     # a full thread pool: every first event is refused from the accept loop
     for t in extra_types:
         one(connect(t=t), acc, "thread", env="poolfull")
@@ -1077,7 +1285,6 @@ def abort_cases(g, thorough):
 
 
 # ---------------------------------------------------------------- check.py interface
-REGISTERED = {DAEMON_OBJ: True, OBJ: True}
 
 
 def gen_info(ctx):
@@ -1090,9 +1297,14 @@ def classify_case(env, case):
     if env.exc is None:
         env.exc = _exc_table()
     cls = []
-    for (c, si) in case["order"]:
+    timeline = registry_timeline(case)
+    for i, it in enumerate(case["order"]):
+        if is_app(it):
+            cls.append([])
+            continue
+        c, si = it
         conn = case["conns"][c]
-        cls.append([{"special": m["special"]} if is_special(m) else classify(m, REGISTERED, conn["vb"], env.exc) for m in conn["segs"][si]])
+        cls.append([{"special": m["special"]} if is_special(m) else classify(m, timeline[i], conn["vb"], env.exc) for m in conn["segs"][si]])
     return cls
 
 
@@ -1120,6 +1332,9 @@ def execute(ctx, env, cases, model_ok, res, collect=True):
             else:
                 res.count("first:type%d:%s:ser%s" % (m0["type"], m0["wf"].split(":")[0], "known" if m0["ser"] in (1, 2, 3, 4) else "unknown"))
             res.count("validator:" + c["vb"]["kind"])
+        for it in case["order"]:
+            if is_app(it):
+                res.count("event:app-" + it["app"])
             for sg in c["segs"]:
                 for m in sg:
                     if is_special(m):
@@ -1132,10 +1347,16 @@ def execute(ctx, env, cases, model_ok, res, collect=True):
         res.count("execs-daemon-object", sum(1 for s in obs["segs"] for e in s["execs"] if e[3]))
         res.count("connections", len(case["conns"]))
         res.count("segments", len(case["order"]))
-        for i0 in [i for i, (c, si) in enumerate(case["order"]) if si == 0]:
+        for i0 in [i for i, it in enumerate(case["order"]) if not is_app(it) and it[1] == 0]:
             r0 = obs["segs"][i0]["replies"]
             res.count("first-answer:" + ("none" if not r0 else {2: "CONNECTOK", 3: "CONNECTFAIL"}.get(r0[0]["type"], "type%d" % r0[0]["type"])))
-        for sig, what in oracle(env, case, obs, cls):
+        try:
+            verdicts = oracle(env, case, obs, cls)
+        except Exception:
+            import traceback
+            verdicts = []
+            res.mismatches.append({"component": "C08-oracle-crash", "case": case, "impl": short_obs(obs), "model": traceback.format_exc()[-800:]})
+        for sig, what in verdicts:
             res.violations.append({"signature": sig, "what": what, "case": case})
         if obs["anomalies"]:
             res.count("anomalies", len(obs["anomalies"]))
@@ -1155,7 +1376,8 @@ def all_cases(ctx, info, scale_random=True):
     g = Gen(ctx.rng, info)
     thorough = not ctx.quick
     cases = vlib.load_corpus(PROP) + targeted(info, thorough)
-    cases += [g.case() for _ in range(ctx.n(1100, 11000))]
+    cases += [g.case() for _ in range(ctx.n(850, 7000))]
+    cases += [g.registry_case() for _ in range(ctx.n(80, 600))]
     cases += [g.timeout_case() for _ in range(ctx.n(10, 70))]
     cases += [g.poolfull_case() for _ in range(ctx.n(60, 600))]
     cases += abort_cases(g, thorough)
@@ -1197,6 +1419,7 @@ def search(ctx, broken):
     try:
         g = Gen(ctx.rng, info)
         cases = [b["case"] for b in broken if b.get("case")] + targeted(info) + [g.case() for _ in range(ctx.n(150, 600))]
+        cases += [g.registry_case() for _ in range(ctx.n(30, 100))]
         cases += [g.poolfull_case() for _ in range(ctx.n(20, 60))] + [g.timeout_case() for _ in range(ctx.n(1, 3))]
         cases = sorted(cases, key=lambda k: ENV_ORDER.index(case_env(k)))
         for case in cases:
